@@ -1027,6 +1027,22 @@ def _extend(ctx, args, ck):
 
 def map_find(ctx, mp, key):
     """Return the [k, v] entry whose key equals `key` (forking on symbolic equality) or None."""
+    pk = ctx.m.peel(key)
+    if isinstance(pk, Int) and isinstance(pk.v, int):
+        # fast path: concrete integer key against concrete integer keys
+        kv = pk.v
+        rest = []
+        for e in mp.entries:
+            ek = e[0]
+            if isinstance(ek, Int) and isinstance(ek.v, int):
+                if ek.v == kv:
+                    return e
+            else:
+                rest.append(e)
+        for e in rest:
+            if ctx.branch(ctx.m.eq(e[0], key)):
+                return e
+        return None
     for e in mp.entries:
         if ctx.branch(ctx.m.eq(e[0], key)):
             return e
@@ -1369,3 +1385,40 @@ def _heap_into_vec(ctx, args, ck):
             out.append(items.pop(ctx.choice(len(items), 'heap-order')))
         return VecObj(out)
     return VecObj(items)
+
+
+@model('HashMap::retain', 'BTreeMap::retain')
+def _map_retain(ctx, args, ck):
+    mp = as_map(ctx, args[0])
+    keep = []
+    for e in mp.entries:
+        if ctx.branch(ctx.m.call_value(args[1], [Ref(e, 0), Ref(e, 1)])):
+            keep.append(e)
+    mp.entries[:] = keep
+    return None
+
+
+@model('HashSet::retain', 'BTreeSet::retain')
+def _set_retain(ctx, args, ck):
+    mp = as_map(ctx, args[0])
+    keep = []
+    for e in mp.entries:
+        if ctx.branch(ctx.m.call_value(args[1], [Ref(e, 0)])):
+            keep.append(e)
+    mp.entries[:] = keep
+    return None
+
+
+@model('BTreeMap::into_values', 'BTreeMap::values')
+def _btree_values(ctx, args, ck):
+    return MapIter(ctx, as_map(ctx, args[0]), 'into_values' if ck.name == 'into_values' else 'values')
+
+
+@model('BTreeMap::first_key_value', 'BTreeMap::last_key_value')
+def _btree_first(ctx, args, ck):
+    mp = as_map(ctx, args[0])
+    if not mp.entries:
+        return NONE()
+    ents = sort_items(ctx, list(mp.entries), keyf=lambda e: e[0])
+    e = ents[0] if ck.name.startswith('first') else ents[-1]
+    return Some(Tup([Ref(e, 0), Ref(e, 1)]))
